@@ -558,6 +558,9 @@ def _violations():
     add("metaData without version", lambda d: d["metaData"].pop("version"))
     add("unknown base type name", lambda d: d["notifications"][0].__setitem__("params", {"kind": "base", "name": "float"}))
     add("enum value is an object", lambda d: d["enumerations"][0]["values"][0].__setitem__("value", {"a": 1}))
+    add("$schema member at the root", lambda d: d.__setitem__("$schema", "./lsp.schema.json"))
+    add("$comment member inside a structure", lambda d: d["structures"][0].__setitem__("$comment", "draft"))
+    add("$comment member inside a type", lambda d: d["structures"][0]["properties"][0]["type"].__setitem__("$comment", "x"))
     return out
 
 
